@@ -98,11 +98,19 @@ func (t *stty) Read(p []byte) (int, error) {
 	return 0, nil
 }
 
-//go:norace
+// Write is deliberately NOT norace: the terminal reads the bytes it is given, and a caller that
+// lets another thread modify them meanwhile (a shared buffer written outside the lock) races
+// with this read. Only the bookkeeping below is hidden from the detector.
 func (t *stty) Write(p []byte) (int, error) {
-	who := verifrt.CurrentName()
-	t.blocks = append(t.blocks, wblock{who, append([]byte(nil), p...)})
+	cp := append([]byte(nil), p...)
+	t.record(cp)
 	return len(p), nil
+}
+
+//go:norace
+func (t *stty) record(cp []byte) {
+	who := verifrt.CurrentName()
+	t.blocks = append(t.blocks, wblock{who, cp})
 }
 
 //go:norace
